@@ -303,7 +303,7 @@ func handle(dir string, req Req) Resp {
 	case "ir":
 		return handleIR(dir, req)
 	case "probe":
-		return handleProbe(dir)
+		return handleProbe(dir, req.Stage)
 	}
 	return Resp{Outs: []Out{{St: "harness-error", Err: "unknown op " + req.Op}}}
 }
@@ -371,9 +371,19 @@ func handleLoad(dir string, req Req) Resp {
 
 // handleProbe loads the witness document of every special IR shape with the
 // real parser and reports which shapes the parsers of this tree really emit.
-func handleProbe(dir string) Resp {
+// The probe is cut in chunks (Stage = "<k>/<n>") so that it runs on the whole
+// pool: chunk 0 also probes the special shapes and the YAML defaults.
+func handleProbe(dir string, stage string) Resp {
 	var outs []Out
+	chunk, chunks := 0, 1
+	fmt.Sscanf(stage, "%d/%d", &chunk, &chunks)
+	if chunks < 1 {
+		chunks = 1
+	}
 	for _, name := range specialNames() {
+		if chunk != 0 {
+			break
+		}
 		def := specialDefs[name]
 		in := filepath.Join(dir, fmt.Sprintf("probe%d-%s", curRequest.Load(), name))
 		mustWrite(inputFile(def.Format, in), []byte(def.Doc))
@@ -395,6 +405,9 @@ func handleProbe(dir string) Resp {
 	// of every shape of part (a) ...
 	seen := map[valueTriple]bool{}
 	for i, shape := range allShapes() {
+		if i%chunks != chunk {
+			continue
+		}
 		in := filepath.Join(dir, fmt.Sprintf("probe%d-s%d", curRequest.Load(), i))
 		mustWrite(inputFile(shape.Format, in), []byte(shape.Doc))
 		for rel, content := range shape.Extra {
@@ -414,6 +427,9 @@ func handleProbe(dir string) Resp {
 	in := filepath.Join(dir, fmt.Sprintf("probe%d-y", curRequest.Load()))
 	mustWrite(inputFile("jsonschema", in), []byte(smallSchema))
 	for _, field := range rootOptions {
+		if chunk != 0 {
+			break
+		}
 		for _, value := range []string{"3", "1.5", "s", "true", "[1, a]", "{a: 1}", "18446744073709551615", "-3"} {
 			passes := filepath.Join(in, "passes.yaml")
 			mustWrite(passes, []byte("passes: [{fields_set_default: {defaults: {p.Root."+field+": "+value+"}}}]\n"))
